@@ -172,6 +172,42 @@ def renamed_then_ignored(b, sym):
             b.require("missing" not in l and "found new file" not in l, "ignored-path-reported", "%s: %s" % (cmd, l))
 
 
+def late_child(b, sym):
+    """a nested history that appears (is sealed on its own, or copied in) after the parent already carries patterns: the generation
+    the next parent run writes into it contains all of the parent's patterns, old and new, and the child's own"""
+    b.mkfile("R/a.txt", 1)
+    b.mkfile("R/x.tmp", 2)
+    b.mkfile("R/N/n.txt", 3)
+    b.mkfile("R/N/cache.tmp", 4)
+    b.mkfile("R/N/old.bak", 5)
+    first = sym.choose("parent_first_patterns", [["*.tmp"], ["*.tmp", "*.log"]])
+    r = b.run("create", root="R", h=["md5"], i=first)
+    b.require(r.exit == 0 and r.exc is None, "create-exit-0", str(r))
+    own = sym.choose("child_own_patterns", [[], ["*.dat"]])
+    r = b.run("create", root="R/N", h=["md5"], i=own)  # a stand-alone run inside the folder: it knows nothing of the parent
+    b.require(r.exit == 0 and r.exc is None, "create-exit-0", str(r))
+    second = sym.choose("parent_second_patterns", [[], ["*.bak"]])
+    names_before = {x: b.manifest_names(x) for x in ("R", "R/N")}
+    r = b.run("create", root="R", h=["md5"], i=second)
+    b.require(r.exit in (0, 10) and (r.exc is None or r.exit == 10), "create-exit-0", "second parent run: %s" % r)
+    roots, news = new_manifests(b, None, names_before, "R")
+    b.require(len(news.get("R/N", [])) == 1 and len(news["R"]) == 1, "one-new-manifest", str({k: len(v) for k, v in news.items()}))
+    parent_list = news["R"][0].ignore or []
+    child_list = news["R/N"][0].ignore or []
+    b.require(parent_list == DEFAULTS + first + second, "pattern-list-persists", "parent: %r" % parent_list)
+    for p_ in first + second + own:
+        b.require(p_ in child_list, "nested-generation-has-parent-patterns", "the child generation written by the parent run lists %r, lacks %r" % (child_list, p_))
+    b.require(len(child_list) == len(set(child_list)), "pattern-list-no-duplicates", repr(child_list))
+    # and they are in force there from now on: a stand-alone run in the child records none of the excluded files
+    names_before = {"R/N": b.manifest_names("R/N")}
+    r = b.run("create", root="R/N", h=["md5"])
+    m = [x for x in b.manifests("R/N") if x.file not in names_before["R/N"]]
+    b.require(len(m) == 1, "one-new-manifest", "stand-alone child run: %s" % r)
+    got = sorted(rec.path for rec in m[0].files())
+    want = ["n.txt"] + (["old.bak"] if not second else [])
+    b.require(got == want, "ignored-path-recorded", "stand-alone child run records %s, expected %s" % (got, want))
+
+
 def long_history(b, sym):
     """patterns accumulate over more than nine generations"""
     b.mkfile("R/a.txt", 1)
@@ -201,9 +237,9 @@ def long_history(b, sym):
         b.require(r.exit == 0, "ignored-change-no-failure", "%s after 12 generations: %s" % (cmd, r))
 
 
-def harnesses(tier):
+def _harnesses(tier):
     out = ["gitwildmatch semantics themselves (pathspec library, run for real on concrete paths)", "patterns that exclude a nested history root",
-           "negated patterns (!x)"]
+           "negated patterns (!x) other than the ordered pair of the tour"]
     return [
         Harness("c12-accumulate", accumulate, mode="unit", frontier=4, budget_s=600,
                 what="MHLIgnoreSpec with 0-3 previous and 0-3 new patterns of symbolic identity: result = previous (or defaults) + new in order of "
@@ -212,6 +248,10 @@ def harnesses(tier):
         Harness("c12-renamed", renamed_then_ignored, frontier=4, budget_s=600,
                 what="a file renamed (recorded with -dr) to a name that a later pattern ignores: verify / diff / create report it neither missing nor new",
                 bounds={"names": 2, "pattern": "-i on every command | persisted"}, outside=out),
+        Harness("c12-late-child", late_child, frontier=4, budget_s=600,
+                what="a nested history sealed on its own after the parent already carries patterns; a second parent run (with or without new patterns): "
+                     "the child generation it writes lists the parent's old and new patterns and the child's own; a later stand-alone child run obeys them",
+                bounds={"parent patterns": "1-2 first, 0-1 later", "child patterns": "0-1"}, outside=out),
         Harness("c12-long", long_history, frontier=3, budget_s=900,
                 what="12 generations (flat or with a nested history), patterns added in generation 3 and in generation 9 / 10 / 11: lists and exclusions persist",
                 bounds={"generations": 12}, outside=out),
@@ -221,3 +261,8 @@ def harnesses(tier):
                 bounds={"patterns": ["*.tmp", "junk.bin", "d/e", "cache/", "/a.log", "d/e/deep.txt"], "given via": "-i | -i x3 with duplicate | -ii file with blank line",
                         "generations": 3}, outside=out),
     ]
+
+
+def harnesses(tier):
+    from . import tour
+    return list(_harnesses(tier)) + tour.harnesses(tier, "C12")
